@@ -21,7 +21,7 @@ MANIFEST = dict(
          "one step + 1e-9. Exact read-back through CPython's real floats is NOT a theorem: it is closed by enumerating all 65 536 words "
          "x 2 units on the real accessor on every run (both write paths). Tie: translator + differential correspondence on the real "
          "GeckoTempStructAccessor (floats converted to exact Fractions, model rationals compared as num/den) and the real "
-         "GeckoWaterHeater on stub spas of shipped cfg/log pairs. Session 4: heater states keep the user setpoint (SetpointG) on the other side of the current temperature than the regulated target (RealSetPointG), so a heater reading the wrong word shows in real_target_temperature and in the operation ladder. The unit setting flips while every stored word stays unchanged, on the same live heater.",
+         "GeckoWaterHeater on stub spas of shipped cfg/log pairs. Session 4: heater states keep the user setpoint (SetpointG) on the other side of the current temperature than the regulated target (RealSetPointG), so a heater reading the wrong word shows in real_target_temperature and in the operation ladder. The unit setting flips while every stored word stays unchanged, on the same live heater. Session 5: one heater object living across a history of writes and reports against a spa that applies each command and reports the word back (the same temperature again, a value truncating to the held word, a unit change right after it, writes in the other unit): after every step the heater presents the stored word in the current unit.",
     note="Trusted: Lean kernel; the translator (harness/gen_c14.py over py2lean; float literal -> exact value of the double, float op -> "
          "fl(...)); the correspondence harness. Assumed in float_bridge only: rounding is monotone with relative error <= 2^-52 in the "
          "range used (no underflow/overflow). int -> double conversion of a stored word is exact (< 2^53). A flag that exists but is off "
@@ -471,6 +471,67 @@ def check_heater(ctx, cfg, log, drop, lines, expect, combos):
         ctx.count("evaluations")
         if got != want:
             viol(ctx, f"heater-set:{units}", {"kind": "heater-set", "cfg": cfg, "log": log, "units": units, "value": t}, want, got)
+    try:
+        check_live_heater(ctx, cfg, log, spa, heater, acc)
+    except Exception as e:  # noqa
+        viol(ctx, f"live-heater:raised:{type(e).__name__}", {"kind": "live-heater", "cfg": cfg, "log": log}, "the history runs", f"{type(e).__name__}: {e}")
+
+
+def check_live_heater(ctx, cfg, log, spa, heater, acc):
+    """ONE heater object living across a history of writes and reports, against a spa that applies each command and reports the
+    word back (replace_status_block_segment, as the partial update does): a write that lands on the word already held (the same
+    temperature again; a value that truncates to it), a unit change at the keypad right after it, writes in the other unit -
+    after every step what the heater presents is the stored word in the current unit, nothing else"""
+    if "SetpointG" not in acc or "TempUnits" not in acc or acc["TempUnits"].items is None:
+        return
+    ua = acc["TempUnits"]
+    if not ("C" in ua.items and "F" in ua.items):
+        return
+    sp = acc["SetpointG"]
+
+    def word():
+        b = spa.struct.status_block
+        return (b[sp.pos] << 8) | b[sp.pos + 1]
+
+    def units_now():
+        return ua.value if ua.value in ("C", "F") else "F"
+
+    histories = [
+        [("u", "C"), ("w", 38.0), ("w", 38.0), ("u", "F"), ("w", 100.4), ("u", "C")],
+        [("u", "C"), ("w", 14.0), ("w", 14.03), ("w", 14.05), ("u", "F")],
+        [("u", "F"), ("w", 99.5), ("w", 99.54), ("u", "C"), ("w", 37.5), ("w", 37.52), ("u", "F")],
+        [("u", "C"), ("w", 30.0), ("u", "F"), ("u", "C"), ("w", 30.0), ("u", "F")],
+    ]
+    for hist in histories:
+        spa.set_block(poke(units_block(spa, "C"), sp, 600))
+        done = []
+        for kind, v in hist:
+            done.append([kind, v])
+            try:
+                if kind == "u":
+                    nb = poke(spa.struct.status_block, ua, ua.items.index(v))
+                    spa.struct.replace_status_block_segment(ua.pos, nb[ua.pos:ua.pos + ua.length])
+                else:
+                    n0 = len(spa.captured)
+                    heater.set_target_temperature(v)
+                    for (p_, l_, val) in spa.captured[n0:]:
+                        spa.struct.replace_status_block_segment(p_, int(val).to_bytes(l_, "big"))     # the spa applies it and reports it back
+                shown = heater.target_temperature
+                sym = heater.temperature_unit
+            except Exception as e:  # noqa
+                shown, sym = f"raised {type(e).__name__}: {e}", None
+            ctx.count("evaluations")
+            ctx.hist("live_heater_steps", kind)
+            u = units_now()
+            ok = not isinstance(shown, str) and nearest_double_ok(exact_read(u, word()), shown) and sym == ("°C" if u == "C" else "°F")
+            if kind == "w" and ok:
+                # the write itself: within one device step of what was asked, never above it by a step (truncation)
+                asked = Fraction(str(v))
+                ok = abs(exact_read(u, word()) - asked) < step_of(u)
+            if not ok:
+                viol(ctx, f"live-heater:{kind}:{u}", {"kind": "live-heater", "cfg": cfg, "log": log, "history": done},
+                     f"the heater presents the stored word ({word()}) in {u}: {float(exact_read(u, word()))!r} {u}", [shown, sym])
+                break
 
 
 def check_items(ctx, spa, lines, expect, quick):
@@ -700,6 +761,15 @@ def replay(inp):
         a, _ = impl_write(spa, tag, ub, eval(inp["a"]))
         b, _ = impl_write(spa, tag, ub, eval(inp["b"]))
         return not (isinstance(a, int) and isinstance(b, int) and a <= b), [a, b]
+    if k == "live-heater":
+        from geckolib.automation.heater import GeckoWaterHeater
+        from common import Ctx
+        spa = Spa(inp["cfg"], inp["log"])
+        heater = GeckoWaterHeater(StubFacade(spa))
+        c = Ctx("C14", "quick", 0)
+        check_live_heater(c, inp["cfg"], inp["log"], spa, heater, spa.accessors)
+        v = [x for x in c.violations if x["input"].get("history") == inp.get("history")] or c.violations
+        return bool(v), v[0]["observed"] if v else "presents the stored word"
     if k in ("ladder", "unit", "heater-build", "heater-set"):
         from geckolib.automation.heater import GeckoWaterHeater
         spa = Spa(inp["cfg"], inp["log"], tuple(inp.get("drop", ())))
